@@ -57,6 +57,15 @@ def generate(seed, tier):
         bulk.append(["commit", {"merge": br.choice(("none", "default", "optimize"))}])
         pos = 0 if br.random() < 0.5 else len(rec["ops"])
         rec["ops"] = rec["ops"][:pos] + bulk + rec["ops"][pos:]
+    # 25% of the runs end with a batch of documents held by a BufferedWriter: their values are read back
+    # (twice) while they sit in the in-memory codec, through the writer's reader and searcher, then flushed
+    mr = random.Random("%s/mem" % seed)
+    if mr.random() < 0.25:
+        from whoosim.session import cfg_from_record
+        from whoosim.workload import DocGen
+        dg = DocGen(cfg_from_record(rec["config"]), mr, nkeys=12)
+        dg.next_uid = 200000
+        rec["mem_docs"] = [dg.doc(key=100 + i, sparse_p=0.3) for i in range(mr.randint(1, 8))]
     return rec
 
 
@@ -97,9 +106,65 @@ def make_hooks(s, record):
     def after_commit(actor, probe_only=False):
         check(actor, actor.ix, "after commit")
 
+    def memory_phase(actor):
+        from whoosh.writing import BufferedWriter
+        from whoosh import query
+        from whoosim.model import _eq
+        mi = s.model
+
+        def guard(fn, what):
+            try:
+                return fn()
+            except (SimAbort, SimKilled, HarnessError, Violation):
+                raise
+            except Exception as e:  # noqa
+                raise Violation("stored_unchanged", "BufferedWriter: %s raised %s: %s" % (what, type(e).__name__, e), sig="buffered_raised:%s:%s" % (what, exc_sig(e)))
+        bw = guard(lambda: BufferedWriter(actor.ix, period=None, limit=10000, writerargs=dict(s.cfg.writer_kwargs())), "__init__")
+        try:
+            mw = mi.writer()
+            for d in record["mem_docs"]:
+                guard(lambda: bw.add_document(**d), "add_document")
+                mw.add(d)
+            mw.commit()
+            for rnd in (1, 2):
+                rd = guard(lambda: bw.reader(), "reader")
+                try:
+                    res = compare_reader(rd, mi.docs, mi.schema, mi.field_names, parts=("docs", "stored", "columns"))
+                finally:
+                    rd.close()
+                if res:
+                    clause = {"docs": "right_document", "stored": "stored_unchanged", "columns": "column_unchanged_or_default"}[res[0]]
+                    raise Violation(clause, "documents held by a BufferedWriter, read %d: %s" % (rnd, res[1]), sig="%s:buffered" % clause)
+                srch = guard(lambda: bw.searcher(), "searcher")
+                try:
+                    byuid = dict((d.uid, d) for d in mi.docs)
+                    for hit in guard(lambda: srch.search(query.Every(), limit=None), "search"):
+                        fs = hit.fields()
+                        d = byuid.get(fs.get("u"))
+                        if d is None:
+                            continue
+                        for f, v in d.stored.items():
+                            if f in mi.field_names and not _eq(fs.get(f), v):
+                                raise Violation("stored_unchanged", "BufferedWriter.searcher(), read %d: Hit.fields()[%r] of uid %s = %r, supplied %r" % (rnd, f, d.uid, fs.get(f), v),
+                                                sig="stored_unchanged:buffered_hit")
+                        if s.cfg.scribble:
+                            fs.clear()
+                            fs["zz_scribbled_by_caller"] = 1
+                finally:
+                    srch.close()
+            s.count("memory_phases")
+        finally:
+            guard(lambda: bw.close(), "close")
+        s.count("commits")
+
     def finish(actor):
         actor.ix = None
         s.new_process("final")
+        if record.get("mem_docs") and s.index_exists():
+            actor.ensure_index()
+            memory_phase(actor)
+            actor.ix = None
+            s.new_process("final2")
         if s.index_exists():
             actor.ensure_index()
             check(actor, actor.ix, "cold reopen")
